@@ -51,6 +51,34 @@ CHECKS = {
              "JoinedStr decomposition; every expression under a replacement field must re-parse from source[range] to the same node (own text in the enclosing file).",
         note="Trusted: CPython 3.11 (pre-PEP 701) for the decomposition; for inner ranges the expression's own text (CPython's f-string locator uses substring search and is not used).",
         design="§2 C07"),
+    "C08": dict(
+        technique="metamorphic (relational) runtime monitor: parse(p) vs parse(p') for layout-only rewrites validated by the reference",
+        text="Eleven layout rewrites (newline styles, trailing blanks, blank/comment lines, end-of-line comments, re-indentation incl. tabs, form feeds, BOM, backslash joins, "
+             "line breaks inside brackets, token spacing, redundant parentheses) are applied singly and in seeded compositions of 2-5 to valid programs; a pair is used only "
+             "if CPython gives both texts the same tree; acceptance and the tree modulo ranges (and AnnAssign.simple) must not change.",
+        note="Trusted: CPython ast equality decides what is layout-only (a rewriter bug only reduces coverage).",
+        design="§2 C08"),
+    "C09": dict(
+        technique="relational runtime monitor over all public entry points and start offsets on the same text (both range configurations)",
+        text="For each text the harness runs parse, parse_starts_at, parse_tokens, Parse::{parse,parse_starts_at,parse_tokens} for Mod*/Suite/Stmt/Expr/Identifier/Constant, the "
+             "55 typed parsers and the deprecated helpers at offset 0 and at offsets from {1,3,400,65535,2^31,2^32-1-len}, plus lex/lex_starts_at; results at k must equal "
+             "results at 0 with every range and error offset moved by k, and every entry point must return the prescribed part of the module/expression tree.",
+        note="Trusted: the relations written in mon/checks/c09.py are the ones the property states.",
+        design="§2 C09"),
+    "C10": dict(
+        technique="relational runtime monitor across four feature builds of the same working tree",
+        text="Every text is parsed by the default, full-lexer, all-nodes-with-ranges and num-bigint builds: acceptance, tree, mandatory ranges and errors must be equal "
+             "(optional ranges erased, integers by decimal value); the full-lexer token stream minus comments/non-logical newlines must equal the default stream. Workload "
+             "stresses comments, blank lines and continuations around soft-keyword statements and huge integer literals.",
+        note="Trusted: the list of optional-range node kinds (read from ast/src/gen/generic.rs).",
+        design="§2 C10"),
+    "C11": dict(
+        technique="in-process round-trip monitor (parse -> render -> parse -> render) over exhaustive operator pairs, constants, f-strings, generated and corpus expressions; valgrind over the pointer cast",
+        text="All (parent form, operand position, child form) combinations over 50 x 70 forms, parenthesised and bare, plus constants (boundary and seeded doubles, huge ints, "
+             "special-character strings/bytes, tuples), f-strings and expressions from generator and library: the rendering must be accepted, re-parse to the same tree "
+             "modulo ranges/ctx, and be a fixed point.",
+        note="Trusted: equality on the generic Debug dumps.",
+        design="§2 C11"),
     "C14": dict(
         technique="exhaustive small-scope runtime differential: every signature shape is converted by the real API and compared with the structure computed from the generator's description (unique integer defaults make the history unambiguous)",
         text="All signatures within stated bounds (posonly<=1(2), args<=2, vararg, kwonly<=3, kwarg, every legal default subset, annotations, def/lambda) "
